@@ -10,6 +10,195 @@ import Fundraising.Proofs.ExecLemmas
 namespace Fundraising
 open Fundraising.Gen Fundraising.Go
 
+/-! ### helpers (kept in their own namespace so that sibling Tie files can define similar ones) -/
+namespace TieVesting
+
+theorem runSettle_append (aid : Nat) (xs ys : List GEff) (c : Ctx) :
+    runSettle aid (xs ++ ys) c = (runSettle aid xs c >>= fun c => runSettle aid ys c) := by
+  induction xs generalizing c with
+  | nil => simp
+  | cons e es ih => simp only [List.cons_append, runSettle_cons, ih, bind_assoc]
+
+def vqEff (a : Auction) (p : Int × Int) : GEff :=
+  GEff.mk GName.vqSet [GVal.int (a.id : Int), GVal.int p.1,
+    GVal.vq ({ auction := ((a.id : Int)).toNat, auctioneer := a.auctioneer, denom := a.payDenom,
+               amt := p.2, release := p.1, released := false } : VQ)]
+
+theorem avs_loop (a : Auction) (rc : Coin) (vsLen : Int) (l : List VS) (i : Int) (rem : Coin)
+    (effs : List GEff) (parts : List (Int × Int))
+    (hlen : i + l.length = vsLen) (hs : splitLoop rc.amt l rem.amt = some parts) :
+    ∃ r, ApplyVestingSchedules.loop1 a a.payDenom rc vsLen l i rem effs
+      = Loop.done (r, effs ++ parts.map (vqEff a)) := by
+  induction l generalizing i rem effs parts with
+  | nil =>
+    simp [splitLoop] at hs
+    subst hs
+    exact ⟨rem, by simp [ApplyVestingSchedules.loop1]⟩
+  | cons s rest ih =>
+    cases rest with
+    | nil =>
+      unfold ApplyVestingSchedules.loop1
+      simp only [splitLoop] at hs
+      have hi : i = vsLen - 1 := by simp at hlen; omega
+      by_cases hr : rem.amt < 0
+      · simp [hr] at hs
+      · simp [hr] at hs
+        subst hs
+        simp [hi, ApplyVestingSchedules.loop1, vqEff]
+    | cons s' rest' =>
+      unfold ApplyVestingSchedules.loop1
+      have hi : ¬ i = vsLen - 1 := by simp at hlen; omega
+      simp only [splitLoop] at hs
+      simp only [hi, decide_false, Bool.false_eq_true, if_false]
+      generalize ((Dec.ofInt rc.amt).mulTrunc s.weight).truncInt = amt at hs ⊢
+      by_cases h1 : amt < 0
+      · simp [h1] at hs
+      by_cases h2 : rem.amt - amt < 0
+      · simp [h1, h2] at hs
+      simp only [h1, h2, if_false] at hs
+      cases hp : splitLoop rc.amt (s' :: rest') (rem.amt - amt) with
+      | none => simp [hp] at hs
+      | some ps =>
+        simp [hp] at hs
+        subst hs
+        obtain ⟨r, hr⟩ := ih (i + 1) ⟨rem.denom, rem.amt - amt⟩ (effs ++ [vqEff a (s.release, amt)]) ps
+          (by simp at hlen ⊢; omega) hp
+        refine ⟨r, ?_⟩
+        simp only [vqEff] at hr ⊢
+        rw [hr]
+        simp [vqEff]
+
+theorem setView_self {c : Ctx} {aid : Nat} {v : AView} (h : c.s.views[aid]? = some v) :
+    c.setView aid v = c := by
+  unfold Ctx.setView
+  have : c.s.views.set aid v = c.s.views := by
+    obtain ⟨hl, he⟩ := List.getElem?_eq_some_iff.mp h
+    subst he
+    exact List.set_getElem_self hl
+  rw [this]
+
+theorem view_setView {c : Ctx} {aid : Nat} {v w : AView} (h : c.s.views[aid]? = some v) :
+    (c.setView aid w).s.views[aid]? = some w := by
+  have hl : aid < c.s.views.length := by
+    rcases Nat.lt_or_ge aid c.s.views.length with hl | hl
+    · exact hl
+    · simp [List.getElem?_eq_none hl] at h
+  simp [Ctx.setView, hl]
+
+theorem setView_setView (c : Ctx) (aid : Nat) (v w : AView) :
+    (c.setView aid v).setView aid w = c.setView aid w := by
+  simp [Ctx.setView]
+
+theorem run_vqEffs (aid : Nat) (a : Auction) (hid : a.id = aid) (parts : List (Int × Int))
+    (c : Ctx) (v : AView) (hv : c.s.views[aid]? = some v) :
+    runSettle aid (parts.map (vqEff a)) c =
+      .ok (c.setView aid { v with vqs := parts.foldl (fun l p =>
+        setVQ l { auction := aid, release := p.1, auctioneer := a.auctioneer,
+                  denom := a.payDenom, amt := p.2, released := false }) v.vqs }) := by
+  induction parts generalizing c v with
+  | nil => simp [setView_self hv]; rfl
+  | cons p ps ih =>
+    simp only [List.map_cons, runSettle_cons, List.foldl_cons]
+    have h1 : applySettle aid (vqEff a p) c = .ok (c.setView aid { v with vqs := setVQ v.vqs { auction := aid, release := p.1, auctioneer := a.auctioneer, denom := a.payDenom, amt := p.2, released := false } }) := by
+      simp [applySettle, vqEff, Ctx.view, hv, hid, bind, Except.bind, pure, Except.pure]
+    rw [h1]
+    simp only [bind, Except.bind]
+    rw [ih _ _ (view_setView hv)]
+    simp [setView_setView]
+
+theorem bankCall_views {c c' : Ctx} {k : XKind} {src dst : Addr} {coins : List Coin}
+    (h : c.bankCall k src dst coins = .ok c') : c'.s.views = c.s.views ∧ c'.s.now = c.s.now := by
+  obtain ⟨_, b, _, rfl⟩ := bankCall_ok h
+  exact ⟨rfl, rfl⟩
+
+theorem rel_loop (aid N : Nat) (now : Int) (l : List VQ) (i : Nat) (a : Auction) (effs : List GEff)
+    (hid : a.id = aid) :
+    ∃ a' E, ReleaseVestingPayingCoin.loop1 now (N : Int) l (i : Int) a effs = Loop.done (a', effs ++ E) ∧
+      ∀ (c : Ctx) (w : AView), c.s.views[aid]? = some w → w.a = a → c.s.now = now →
+        releaseLoop c aid a.auctioneer N i l = runSettle aid E c := by
+  induction l generalizing i a effs with
+  | nil =>
+    exact ⟨a, [], by simp [ReleaseVestingPayingCoin.loop1], by intros; simp [releaseLoop]⟩
+  | cons q rest ih =>
+    have hcast : ((i : Int) + 1) = ((i + 1 : Nat) : Int) := by omega
+    unfold ReleaseVestingPayingCoin.loop1
+    simp only [tie_ShouldRelease, hcast]
+    by_cases hc : q.release ≤ now ∧ q.released = false
+    · have hdec : (decide (q.release ≤ now) && !q.released) = true := by grind
+      simp only [hdec, if_true]
+      by_cases hlast : i + 1 = N
+      · have hl : ((i : Int) = (N : Int) - 1) := by omega
+        simp only [hl, decide_true, if_true]
+        obtain ⟨a', E, h1, h2⟩ := ih (i + 1) { a with status := Status.finished }
+          (effs ++ [GEff.mk GName.sendCoins [GVal.addr (Addr.vest a.id), GVal.nat a.auctioneer, GVal.coin (Go.vqCoin q)]]
+            ++ [GEff.mk GName.vqSet [GVal.int (q.auction : Int), GVal.int q.release, GVal.vq { q with released := true }]]
+            ++ [GEff.mk GName.auctionSet [GVal.int (a.id : Int), GVal.auction { a with status := Status.finished }]]) hid
+        refine ⟨a', [GEff.mk GName.sendCoins [GVal.addr (Addr.vest a.id), GVal.nat a.auctioneer, GVal.coin (Go.vqCoin q)],
+            GEff.mk GName.vqSet [GVal.int (q.auction : Int), GVal.int q.release, GVal.vq { q with released := true }],
+            GEff.mk GName.auctionSet [GVal.int (a.id : Int), GVal.auction { a with status := Status.finished }]] ++ E, ?_, ?_⟩
+        · rw [h1]; simp only [List.append_assoc, List.cons_append, List.nil_append]
+        · intro c w hw hwa hnow
+          conv => lhs; unfold releaseLoop
+          have hcm : (q.release ≤ c.s.now ∧ (!q.released) = true) := by grind
+          simp only [hcm, and_self, if_true, List.cons_append, List.nil_append, runSettle_cons, applySettle, dstOf,
+            hid, bind, Except.bind, vqCoin_denom, vqCoin_amt]
+          cases hmk : mkCoins c q.denom q.amt with
+          | error f => rfl
+          | ok coins =>
+            simp only []
+            cases hb : c.bankCall .send (.vest aid) (.user a.auctioneer) coins with
+            | error f => rfl
+            | ok c' =>
+              have hv' : c'.s.views[aid]? = some w := by rw [(bankCall_views hb).1]; exact hw
+              have hn' : c'.s.now = now := by rw [(bankCall_views hb).2]; exact hnow
+              simp only [Ctx.view, hv', view_setView hv', setView_setView, hlast, pure, Except.pure, if_true]
+              subst hwa
+              have h3 := h2 (c'.setView aid { w with a := { w.a with status := .finished }, vqs := setVQ w.vqs { q with released := true } })
+                { w with a := { w.a with status := .finished }, vqs := setVQ w.vqs { q with released := true } }
+                (view_setView hv') rfl (by rw [setView_now]; exact hn')
+              simp only [hlast, hid] at h3 ⊢
+              exact h3
+      · have hl : ¬ ((i : Int) = (N : Int) - 1) := by omega
+        simp only [hl, decide_false, Bool.false_eq_true, if_false]
+        obtain ⟨a', E, h1, h2⟩ := ih (i + 1) a
+          (effs ++ [GEff.mk GName.sendCoins [GVal.addr (Addr.vest a.id), GVal.nat a.auctioneer, GVal.coin (Go.vqCoin q)]]
+            ++ [GEff.mk GName.vqSet [GVal.int (q.auction : Int), GVal.int q.release, GVal.vq { q with released := true }]]) hid
+        refine ⟨a', [GEff.mk GName.sendCoins [GVal.addr (Addr.vest a.id), GVal.nat a.auctioneer, GVal.coin (Go.vqCoin q)],
+            GEff.mk GName.vqSet [GVal.int (q.auction : Int), GVal.int q.release, GVal.vq { q with released := true }]] ++ E, ?_, ?_⟩
+        · rw [h1]; simp only [List.append_assoc, List.cons_append, List.nil_append]
+        · intro c w hw hwa hnow
+          conv => lhs; unfold releaseLoop
+          have hcm : (q.release ≤ c.s.now ∧ (!q.released) = true) := by grind
+          simp only [hcm, and_self, if_true, List.cons_append, List.nil_append, runSettle_cons, applySettle, dstOf,
+            hid, bind, Except.bind, vqCoin_denom, vqCoin_amt]
+          cases hmk : mkCoins c q.denom q.amt with
+          | error f => rfl
+          | ok coins =>
+            simp only []
+            cases hb : c.bankCall .send (.vest aid) (.user a.auctioneer) coins with
+            | error f => rfl
+            | ok c' =>
+              have hv' : c'.s.views[aid]? = some w := by rw [(bankCall_views hb).1]; exact hw
+              have hn' : c'.s.now = now := by rw [(bankCall_views hb).2]; exact hnow
+              simp only [Ctx.view, hv', view_setView hv', hlast, pure, Except.pure, if_false]
+              subst hwa
+              exact h2 (c'.setView aid { w with vqs := setVQ w.vqs { q with released := true } })
+                { w with vqs := setVQ w.vqs { q with released := true } }
+                (view_setView hv') rfl (by rw [setView_now]; exact hn')
+    · obtain ⟨a', E, h1, h2⟩ := ih (i + 1) a effs hid
+      refine ⟨a', E, ?_, ?_⟩
+      · have : (decide (q.release ≤ now) && !q.released) = false := by grind
+        simp only [this, Bool.false_eq_true, if_false]
+        exact h1
+      · intro c w hw hwa hnow
+        rw [← h2 c w hw hwa hnow]
+        conv => lhs; unfold releaseLoop
+        have : ¬ (q.release ≤ c.s.now ∧ (!q.released) = true) := by grind
+        simp only [this, if_false]
+
+end TieVesting
+open TieVesting
+
 /-- **ApplyVestingSchedules.**  `hid`: the stored auction carries its own key.  `hsplit`: no
     instalment is negative (Go would panic in `sdk.NewCoin` / `SubAmount`; the model says `.panic`
     there — excluded for every reachable state by `Proofs/…` via valid schedules and a
@@ -18,12 +207,56 @@ theorem tie_ApplyVestingSchedules (c : Ctx) (aid : Nat) (v : AView) (hv : c.s.vi
     (hid : v.a.id = aid)
     (hsplit : (splitLoop (c.s.bank (.pay aid) v.a.payDenom) v.a.schedules (c.s.bank (.pay aid) v.a.payDenom)).isSome = true) :
     applyVestingSchedules c aid = Go.runSettlePlan c aid (Gen.ApplyVestingSchedules v.a c.s.bank) := by
-  sorry
+  unfold applyVestingSchedules Gen.ApplyVestingSchedules
+  simp only [Ctx.view, hv, Ctx.bal]
+  by_cases he : v.a.schedules = []
+  · simp [he, runSettlePlan, applySettle, dstOf, hid, bind, Except.bind, pure, Except.pure]
+    cases hmk : mkCoins c v.a.payDenom (c.s.bank (.pay aid) v.a.payDenom) with
+    | error f => rfl
+    | ok coins =>
+      simp only []
+      cases hb : c.bankCall .send (.pay aid) (.user v.a.auctioneer) coins with
+      | error f => rfl
+      | ok c' =>
+        have hv' : c'.s.views[aid]? = some v := by rw [(bankCall_views hb).1]; exact hv
+        simp [Ctx.view, hv']
+  · have hne : ¬ ((v.a.schedules.length : Int) = 0) := by
+      have := List.length_pos_iff.mpr he
+      omega
+    have hie : v.a.schedules.isEmpty = false := by simpa using he
+    cases hsp : splitLoop (c.s.bank (.pay aid) v.a.payDenom) v.a.schedules (c.s.bank (.pay aid) v.a.payDenom) with
+    | none => simp [hsp] at hsplit
+    | some parts =>
+      obtain ⟨r, hr⟩ := avs_loop v.a ⟨v.a.payDenom, c.s.bank (.pay aid) v.a.payDenom⟩ (v.a.schedules.length : Int)
+        v.a.schedules 0 ⟨v.a.payDenom, c.s.bank (.pay aid) v.a.payDenom⟩
+        ([] ++ [GEff.mk GName.sendCoins [GVal.addr (Addr.pay v.a.id), GVal.addr (Addr.vest v.a.id),
+          GVal.coin ⟨v.a.payDenom, c.s.bank (.pay aid) v.a.payDenom⟩]]) parts (by simp) hsp
+      simp only [hid] at hr
+      simp only [hne, hid, decide_false, Bool.false_eq_true, if_false, hr]
+      simp only [runSettlePlan, List.nil_append, List.cons_append, runSettle_cons,
+        runSettle_append, runSettle_nil, applySettle, dstOf, bind, Except.bind, hie, hsp,
+        Bool.false_eq_true, if_false]
+      cases hmk : mkCoins c v.a.payDenom (c.s.bank (.pay aid) v.a.payDenom) with
+      | error f => rfl
+      | ok coins =>
+        simp only []
+        cases hb : c.bankCall .send (.pay aid) (.vest aid) coins with
+        | error f => rfl
+        | ok c' =>
+          have hv' : c'.s.views[aid]? = some v := by rw [(bankCall_views hb).1]; exact hv
+          simp only [run_vqEffs aid v.a hid parts c' v hv']
+          simp [Ctx.view, view_setView hv', setView_setView, pure, Except.pure, hid]
 
 /-- **ReleaseVestingPayingCoin.** -/
 theorem tie_ReleaseVestingPayingCoin (c : Ctx) (aid : Nat) (v : AView) (hv : c.s.views[aid]? = some v)
     (hid : v.a.id = aid) :
     releaseVesting c aid = Go.runSettlePlan c aid (Gen.ReleaseVestingPayingCoin v.a v.vqs c.s.now) := by
-  sorry
+  obtain ⟨a', E, h1, h2⟩ := rel_loop aid v.vqs.length c.s.now v.vqs 0 v.a [] hid
+  unfold releaseVesting Gen.ReleaseVestingPayingCoin
+  have h0 : ((0 : Nat) : Int) = 0 := rfl
+  simp only [h0] at h1
+  simp only [Ctx.view, hv, h1, runSettlePlan, List.nil_append, bind, Except.bind]
+  rw [h2 c v hv rfl rfl]
+  cases runSettle aid E c <;> simp [pure, Except.pure]
 
 end Fundraising
